@@ -150,6 +150,10 @@ func timeoutFor(tier string) time.Duration {
 
 // runProperty generates and discharges all obligations of one property.
 func runProperty(prog *Program, prop, tier, only string, verbose bool) *CheckOutcome {
+	return runPropertyIn(prog, prop, tier, only, filepath.Join(verifDir, "work", prop))
+}
+
+func runPropertyIn(prog *Program, prop, tier, only, dir string) *CheckOutcome {
 	out := &CheckOutcome{Prop: prop, Trusted: map[string]bool{}, ByContract: map[string]bool{}}
 	var cts []*FuncContract
 	for _, cf := range prog.files {
@@ -205,7 +209,6 @@ func runProperty(prog *Program, prop, tier, only string, verbose bool) *CheckOut
 			out.Assumed = append(out.Assumed, o.Enc.assumed...)
 		}
 	}
-	dir := filepath.Join(verifDir, "work", prop)
 	os.RemoveAll(dir)
 	solveAll(out.Obls, dir, timeoutFor(tier), tier == "thorough", 6)
 	return out
